@@ -14,10 +14,11 @@ TECHNIQUE = "postcondition on collect_agent_statistics against recomputed aggreg
 RULE = ("seeded populations: 2 agent types, 3 states, >=2 agents per (type,state) at most times, properties x:Double n:Integer "
         "(negative, zero, integer, float, large) + a String property; states and values change every step by a scripted rule so that "
         "states become empty at some times; all selections of agents x states x properties x aggregate types through bptk.run_scenarios "
-        "in df, dict and json. distinct_nontrivial = distinct (type,state,property) cells observed at some time with "
+        "in df, dict and json; every third case asks for two scenarios of the same manager (built from a live model with its own collector, different populations), "
+        "every fourth repeats the request and then simulates again after reset_scenario_cache with another script (same run specs) and asks for the same selection. distinct_nontrivial = distinct (type,state,property) cells observed at some time with "
         "total != min != max != mean (pairwise different).")
 ASSUMPTIONS = ["agents of one type carry the same property set (heterogeneous sets make 'mean' ambiguous)", "comparison tolerance 1e-9 relative"]
-REQUIRED = {"postcondition_evaluations": 500, "cells_checked": 5000, "output_cells_checked": 2000, "cells_all_different": 100}
+REQUIRED = {"reruns_checked": 20, "multi_scenario_rounds": 20, "postcondition_evaluations": 500, "cells_checked": 5000, "output_cells_checked": 2000, "cells_all_different": 100}
 BUDGET_S = {"quick": 100, "thorough": 1200}
 STATES = ["active", "idle", "busy"]
 VALS = [-7.5, -1.0, 0.0, 0.0, 1.0, 2.5, 3.0, 10.0, 1e6, 0.1, 42.0, -0.25]
@@ -25,7 +26,8 @@ VALS = [-7.5, -1.0, 0.0, 0.0, 1.0, 2.5, 3.0, 10.0, 1e6, 0.1, 42.0, -0.25]
 
 def gen_cases(tier, seed):
     n = 160 if tier == "quick" else 4000
-    return [dict(seed=seed * 104729 + i) for i in range(n)]
+    # every third case: two scenarios of one manager (different populations); every fourth: simulated a second time
+    return [dict(seed=seed * 104729 + i, nscen=2 if i % 3 == 0 else 1, rerun=(i % 4 == 1)) for i in range(n)]
 
 
 _st = {"post": 0, "fail": None, "cells": 0, "alldiff": set()}
@@ -87,11 +89,13 @@ def worker_init():
     DataCollector.collect_agent_statistics = collect
 
 
-def make(seed):
+def make(seed, dt=None, rounds=None):
     rng = random.Random(seed)
-    dt = rng.choice(["1", "0.5", "0.25"])
+    dt0 = rng.choice(["1", "0.5", "0.25"])
+    rounds0 = rng.randint(2, 4)
+    dt = dt or dt0
+    rounds = rounds or rounds0
     per = int(round(1 / float(dt)))
-    rounds = rng.randint(2, 4)
     nsteps = rounds * per
     n_a, n_b = rng.randint(2, 7), rng.randint(2, 6)
 
@@ -122,99 +126,127 @@ def make(seed):
     return dict(dt=dt, rounds=rounds, agents=agents, script=script, sel=sel, never_busy=never)
 
 
+def check_round(b, names, sel, label):
+    """One round of requests (df, dict, json) for the scenarios `names` of smAbm, judged against the population
+    snapshots that each scenario's model recorded in end_round during the run the answers report on."""
+    w = None
+    out_cells = 0
+    mgr = b.scenario_manager_factory.scenario_managers["smAbm"]
+    kw = dict(scenarios=list(names), scenario_managers=["smAbm"], agents=sel["agents"], agent_states=sel["states"])
+    if sel["props"]:
+        kw.update(agent_properties=sel["props"], agent_property_types=sel["ptypes"])
+    try:
+        df = b.run_scenarios(return_format="df", **kw)
+        dd = b.run_scenarios(return_format="dict", **kw)
+        js = json.loads(b.run_scenarios(return_format="json", **kw))
+    except Exception as e:
+        import traceback
+        return dict(kind="output-exception:" + type(e).__name__, error=traceback.format_exc()[-500:], round=label), 0
+    if _st["fail"] is not None:
+        return None, 0
+    for name in names:
+        model = mgr.scenarios[name]
+        # truth = the population the model had at the end of each step (recorded by the harness subclass in
+        # end_round), NOT the list the scheduler handed to the collector
+        snaps = {e[1]: recompute(e[2]) for e in model.log if e[0] == "population"}
+        # Model.statistics() vs snapshots (boundary formulation of the postcondition)
+        stats = model.statistics()
+        if len(stats) != len(snaps):
+            return dict(kind="times", got=len(stats), expected=len(snaps), scenario=name, round=label), out_cells
+        for t, exp in snaps.items():
+            w = compare_stats(stats.get(t, {}), exp)
+            if w:
+                w.update(time=t, scenario=name, round=label)
+                return w, out_cells
+
+        # output layer
+        def expect(t, typ, state, prop=None, ptype=None):
+            cell = snaps[t].get(typ, {}).get(state)
+            if cell is None:
+                return 0.0
+            if prop is None:
+                return float(cell["count"])
+            vals = cell["vals"].get(prop, [])
+            if not vals:
+                return 0.0
+            return dict(total=math.fsum(vals), min=min(vals), max=max(vals), mean=math.fsum(vals) / len(vals))[ptype]
+        for typ in sel["agents"]:
+            for state in sel["states"]:
+                combos = [(p, pt) for p in sel["props"] for pt in sel["ptypes"]] or [(None, None)]
+                for (p, pt) in combos:
+                    col = "smAbm_%s_%s_%s" % (name, typ, state) + ("_%s_%s" % (p, pt) if p else "")
+                    for t in snaps:
+                        e = expect(t, typ, state, p, pt)
+                        ever = any(snaps[tt].get(typ, {}).get(state) for tt in snaps)
+                        try:
+                            g_df = float(df[col][t]) if (df is not None and col in df.columns) else None
+                        except KeyError:
+                            g_df = None
+                        if g_df is None and not ever and df is not None:
+                            g_df = 0.0  # a state that was never populated has no column: same as zero
+                        try:
+                            node = js["smAbm"][name]["agents"][typ][state]
+                            series = node["properties"][p][pt] if p else node
+                            g_js = series.get(repr(float(t)), series.get(str(t)))
+                            g_js = None if g_js is None else float(g_js)
+                        except KeyError:
+                            g_js = 0.0 if not ever else None
+                        try:
+                            node = dd["smAbm"][name]["agents"][typ][state]
+                            series = node["properties"][p][pt] if p else node
+                            g_dd = float(series[t])
+                        except KeyError:
+                            g_dd = 0.0 if not ever else None
+                        out_cells += 3
+                        for fmt, g in (("df", g_df), ("json", g_js), ("dict", g_dd)):
+                            if g is None or not close(g, e):
+                                return dict(kind="output-" + fmt, column=col, time=t, got=g, expected=e, scenario=name, round=label), out_cells
+    return None, out_cells
+
+
 def run_case(case):
     from vlib import abm
     from BPTK_Py import bptk
     sc = make(case["seed"])
+    nscen = case.get("nscen", 1)
+    variants = [sc] + [make(case["seed"] * 31 + 17 * i, dt=sc["dt"], rounds=sc["rounds"]) for i in range(1, nscen)]
     counters = {}
     p0, c0 = _st["post"], _st["cells"]
     _st["fail"] = None
     _st["alldiff"] = set()
-    cfg = {"runspecs": {"starttime": 1, "stoptime": sc["rounds"], "dt": float(sc["dt"])}, "properties": {}, "agents": sc["agents"]}
+    names = ["sc%d" % i for i in range(nscen)]
+    scen = {n: {"runspecs": {"starttime": 1, "stoptime": sc["rounds"], "dt": float(sc["dt"])}, "properties": {}, "agents": v["agents"]} for n, v in zip(names, variants)}
+    # the manager is built from a live model that carries its own collector
     base = abm.LogModel(name="abm", scheduler=abm.SimultaneousScheduler(), data_collector=abm.LogCollector())
     b = bptk()
     w = None
     out_cells = 0
     try:
-        b.register_scenario_manager({"smAbm": {"type": "abm", "model": base, "scenarios": {"sc0": cfg}}})
-        model = b.scenario_manager_factory.scenario_managers["smAbm"].scenarios["sc0"]
-        model.script = sc["script"]
+        b.register_scenario_manager({"smAbm": {"type": "abm", "model": base, "scenarios": scen}})
+        mgr = b.scenario_manager_factory.scenario_managers["smAbm"]
+        for n, v in zip(names, variants):
+            mgr.scenarios[n].script = v["script"]
         sel = sc["sel"]
-        kw = dict(scenarios=["sc0"], scenario_managers=["smAbm"], agents=sel["agents"], agent_states=sel["states"])
-        if sel["props"]:
-            kw.update(agent_properties=sel["props"], agent_property_types=sel["ptypes"])
-        try:
-            df = b.run_scenarios(return_format="df", **kw)
-            dd = b.run_scenarios(return_format="dict", **kw)
-            js = json.loads(b.run_scenarios(return_format="json", **kw))
-        except Exception as e:
-            import traceback
-            w = dict(kind="output-exception:" + type(e).__name__, error=traceback.format_exc()[-500:])
-        # truth = the population the model had at the end of each step (recorded by the harness subclass in
-        # end_round), NOT the list the scheduler handed to the collector
-        snaps = {e[1]: recompute(e[2]) for e in model.log if e[0] == "population"}
-        if w is None and _st["fail"] is None:
-            # Model.statistics() vs snapshots (boundary formulation of the postcondition)
-            stats = model.statistics()
-            if len(stats) != len(snaps):
-                w = dict(kind="times", got=len(stats), expected=len(snaps))
-            for t, exp in snaps.items():
-                if w is None:
-                    w = compare_stats(stats.get(t, {}), exp)
-                    if w:
-                        w["time"] = t
-        if w is None and _st["fail"] is None:
-            # output layer
-            def expect(t, typ, state, prop=None, ptype=None):
-                cell = snaps[t].get(typ, {}).get(state)
-                if cell is None:
-                    return 0.0
-                if prop is None:
-                    return float(cell["count"])
-                vals = cell["vals"].get(prop, [])
-                if not vals:
-                    return 0.0
-                return dict(total=math.fsum(vals), min=min(vals), max=max(vals), mean=math.fsum(vals) / len(vals))[ptype]
-            for typ in sel["agents"]:
-                for state in sel["states"]:
-                    combos = [(p, pt) for p in sel["props"] for pt in sel["ptypes"]] or [(None, None)]
-                    for (p, pt) in combos:
-                        col = "smAbm_sc0_%s_%s" % (typ, state) + ("_%s_%s" % (p, pt) if p else "")
-                        for t in snaps:
-                            e = expect(t, typ, state, p, pt)
-                            ever = any(snaps[tt].get(typ, {}).get(state) for tt in snaps)
-                            try:
-                                g_df = float(df[col][t]) if (df is not None and col in df.columns) else None
-                            except KeyError:
-                                g_df = None
-                            if g_df is None and not ever and df is not None:
-                                g_df = 0.0  # a state that was never populated has no column: same as zero
-                            try:
-                                node = js["smAbm"]["sc0"]["agents"][typ][state]
-                                series = node["properties"][p][pt] if p else node
-                                g_js = series.get(repr(float(t)), series.get(str(t)))
-                                g_js = None if g_js is None else float(g_js)
-                            except KeyError:
-                                g_js = 0.0 if not ever else None
-                            try:
-                                node = dd["smAbm"]["sc0"]["agents"][typ][state]
-                                series = node["properties"][p][pt] if p else node
-                                g_dd = float(series[t])
-                            except KeyError:
-                                g_dd = 0.0 if not ever else None
-                            out_cells += 3
-                            for fmt, g in (("df", g_df), ("json", g_js), ("dict", g_dd)):
-                                if g is None or not close(g, e):
-                                    w = dict(kind="output-" + fmt, column=col, time=t, got=g, expected=e)
-                                    break
-                            if w:
-                                break
-                        if w:
-                            break
-                    if w:
-                        break
-                if w:
+        w, oc = check_round(b, names, sel, "first run")
+        out_cells += oc
+        if w is None and _st["fail"] is None and case.get("rerun"):
+            # asked again (no new simulation), then simulated again on the population as it stands: other script, same run specs
+            w, oc = check_round(b, names[:1], sel, "first run, asked again")
+            out_cells += oc
+            for i, n in enumerate(names):
+                if w is not None:
                     break
+                model = mgr.scenarios[n]
+                del model.log[:]
+                model.step_counter = -1
+                model.script = make(case["seed"] * 131 + 7 + i, dt=sc["dt"], rounds=sc["rounds"])["script"]
+                b.reset_scenario_cache(scenario_manager="smAbm", scenario=n)
+            if w is None:
+                w, oc = check_round(b, names, sel, "second run after reset_scenario_cache")
+                out_cells += oc
+                counters["reruns_checked"] = 1
+        if nscen > 1 and w is None:
+            counters["multi_scenario_rounds"] = 1
     finally:
         b.destroy()
     counters["postcondition_evaluations"] = _st["post"] - p0
